@@ -53,7 +53,7 @@ def plan(ctx, tools, prefix="w"):
     if quick:
         nfixed, nseed, per = 7, 3, 4
     else:
-        nfixed, nseed, per = 0, 300, 4
+        nfixed, nseed, per = 0, 150, 4     # 600 guest modules: about what 16 idle cores compile and run in the thorough budget
     limit = MAX_SRC_QUICK if quick else 600_000
     fixed = G.pick_worlds(tools, FIXED_WORLD_SEED, nfixed, FEATURES, "fx", limit) if nfixed else []
     seeded = G.pick_worlds(tools, ctx.seed, nseed, FEATURES, "sd", limit)
@@ -103,7 +103,7 @@ def engine_run(ctx, cats, prop):
                 stats[k] = stats.get(k, 0) + v
     stats["t_prepare_s"] = round(t1 - t0, 1)
     stats["t_build_run_s"] = round(time.time() - t1, 1)
-    G.prune_workspaces(keep=10)
+    G.prune_workspaces(keep=16)
     return tools, units, failing, stats
 
 
